@@ -168,17 +168,18 @@ theorem readN_enough (n : Nat) (d : Bytes) (caps : List Nat) (e : Ending) (h : n
     ∃ caps', readN n ⟨d, caps, e⟩ = .ok (d.take n) ⟨d.drop n, caps', e⟩ := by
   by_cases hn : n = 0
   · subst hn
-    exact ⟨caps, by simp [readN, readLoop_succ, Reader.read]⟩
+    exact ⟨caps, by simp [readN]⟩
   · have := (readLoop_spec n e (caps.length + 2) caps [] d (Nat.le_refl _) (by simp; omega)).1
       (by simpa using h)
-    simpa [readN] using this
+    simpa [readN, hn] using this
 
 /-- `read(n)` with fewer than `n` bytes to come. -/
 theorem readN_short (n : Nat) (d : Bytes) (caps : List Nat) (e : Ending) (h : d.length < n) :
     ∃ caps', readN n ⟨d, caps, e⟩ = short e d.length ⟨[], caps', e⟩ := by
+  have hn : n ≠ 0 := by omega
   have := (readLoop_spec n e (caps.length + 2) caps [] d (Nat.le_refl _) (by simp; omega)).2
     (by simpa using h)
-  simpa [readN] using this
+  simpa [readN, hn] using this
 
 theorem read_data_len (r : Reader) (k : Nat) (bs : Bytes) (b : Bool) (r' : Reader)
     (h : r.read k = (.data bs b, r')) : bs.length ≤ k := by
@@ -234,8 +235,8 @@ theorem fullLoop_eq (n : Nat) : ∀ (fuel : Nat) (acc : Bytes) (r : Reader), acc
 theorem readFull_eq (n : Nat) (r : Reader) : readFull n r = readN n r := by
   unfold readFull readN
   by_cases hn : n = 0
-  · subst hn; simp [readLoop_succ, Reader.read]
-  · rw [if_neg hn, fullLoop_eq n _ [] r (by simp)]
+  · subst hn; simp
+  · rw [if_neg hn, if_neg hn, fullLoop_eq n _ [] r (by simp)]
 
 theorem be32_putBe32 (n : Nat) (h : n < 4294967296) : be32 (putBe32 n) = n := by
   simp only [be32, putBe32, List.foldl_cons, List.foldl_nil, UInt8.toNat_ofNat']
